@@ -6,8 +6,8 @@ V="$(pwd)"
 export CARGO_NET_OFFLINE=true
 ln -sfn "${VERIF_REPO:-/repo}" repo-link
 mkdir -p target/logs evidence
-( cd harness && cargo build --release -q )
-( cd harness && cargo build --profile fast -q )
+( cd harness && cargo build --release -p vmc -q && cargo build --release -p vsync -q )
+( cd harness && cargo build --profile fast -p vmc -q )
 ( cd repo-link && CARGO_TARGET_DIR="$V/target/jaqbin" cargo build -q -p jaq --offline )
 if [ -f tools/sysmon.c ]; then gcc -O2 -o target/sysmon tools/sysmon.c; fi
 echo setup ok
